@@ -438,3 +438,108 @@ func (s *kvGenState) fetchCacheScenario() {
 	s.op("dead-r", "dead has r %s", kvPathTok([]string{top}))
 	s.op("raw", "raw")
 }
+
+// exhaustiveHandles: every sequence of at most maxLen symbols over
+//   {fetch P, fetch C, keep P, delete P, create P, delete C, create C, put via the fetched handle of P,
+//    get via it, prefix via the fetched handle of C, names via the kept handle of P, create C via it,
+//    commit+begin, rollback+begin}
+// on the committed tree a / a/b (= P) / a/b/c (= C) with metas 0 (P) and 1 (C) taken beforehand —
+// the interleavings of FetchBucket's cache, kept handles and delete / re-create of a bucket and
+// its child in one write transaction (the D19 / D44 area), each followed by the same observations.
+func (s *kvGenState) exhaustiveHandles(maxLen int) {
+	g := s.g
+	A := kvPathTok([]string{"a"})
+	P := kvPathTok([]string{"a", "b"})
+	C := kvPathTok([]string{"a", "b", "c"})
+	const nSym = 14
+	count := 0
+	dirty := true
+	setup := func() {
+		g.Reset()
+		s.op("exh-setup", "begin w")
+		s.op("exh-setup", "create w %s", A)
+		s.op("exh-setup", "create w %s", P)
+		s.op("exh-setup", "create w %s", C)
+		s.op("exh-setup", "put w %s 6b31 aa", P)
+		s.op("exh-setup", "put w %s 6b31 bb", C)
+		s.op("exh-setup", "meta w 0 %s", P)
+		s.op("exh-setup", "meta w 1 %s", C)
+		s.op("exh-setup", "commit")
+		dirty = false
+	}
+	seq := make([]int, 0, maxLen)
+	emit := func() {
+		if dirty || count%100 == 0 {
+			setup()
+		}
+		count++
+		s.op("exh-handles", "begin w")
+		for i, y := range seq {
+			switch y {
+			case 0:
+				s.op("exh-handles", "fetch w 0 0")
+			case 1:
+				s.op("exh-handles", "fetch w 1 1")
+			case 2:
+				s.op("exh-handles", "keep w 2 %s", P)
+			case 3:
+				s.op("exh-handles", "delb w %s", P)
+			case 4:
+				s.op("exh-handles", "create w %s", P)
+			case 5:
+				s.op("exh-handles", "delb w %s", C)
+			case 6:
+				s.op("exh-handles", "create w %s", C)
+			case 7:
+				s.op("exh-handles", "via 0 put w / 6b32 %02x", 0xd0+i)
+			case 8:
+				s.op("exh-handles", "via 0 get w / 6b31")
+			case 9:
+				s.op("exh-handles", "via 1 prefix w / -")
+			case 10:
+				s.op("exh-handles", "via 2 names w /")
+			case 11:
+				s.op("exh-handles", "via 2 create w 63")
+			case 12:
+				s.op("exh-handles", "commit")
+				s.op("exh-handles", "begin w")
+				dirty = true
+			case 13:
+				s.op("exh-handles", "rollback")
+				s.op("exh-handles", "begin w")
+			}
+		}
+		s.op("exh-handles", "fetch w 3 0")
+		s.op("exh-handles", "fetch w 3 1")
+		s.op("exh-handles", "via 0 prefix w / -")
+		s.op("exh-handles", "via 2 has w 63")
+		s.op("exh-handles", "prefix w %s -", P)
+		s.op("exh-handles", "names w %s", P)
+		if count%2 == 0 && len(seq) > 0 {
+			s.op("exh-handles", "commit")
+			dirty = true
+			s.op("exh-handles", "begin r")
+			s.op("exh-handles", "fetch r 0 0")
+			s.op("exh-handles", "fetch r 1 1")
+			s.op("exh-handles", "via 0 prefix r / -")
+			s.op("exh-handles", "endr")
+			s.op("exh-handles", "raw")
+		} else {
+			s.op("exh-handles", "rollback")
+		}
+	}
+	var rec func()
+	rec = func() {
+		emit()
+		if len(seq) == maxLen {
+			return
+		}
+		for y := 0; y < nSym; y++ {
+			seq = append(seq, y)
+			rec()
+			seq = seq[:len(seq)-1]
+		}
+	}
+	rec()
+	g.Stats["exh-handle-sequences"] = count
+}
